@@ -2,6 +2,8 @@ pub mod c03;
 pub mod c06;
 pub mod c07;
 pub mod c08;
+pub mod c10;
+pub mod c11;
 
 use crate::engine::Runner;
 
@@ -13,6 +15,8 @@ pub fn run(id: &str, r: &mut Runner) {
         "C06" => c06::run(r),
         "C07" => c07::run(r),
         "C08" => c08::run(r),
+        "C10" => c10::run(r),
+        "C11" => c11::run(r),
         _ => {
             println!("HARNESS-ERROR property {id} has no check yet");
             std::process::exit(2);
